@@ -1,3 +1,6 @@
+#[cfg(weechess_verif)]
+use weechess_simrt::stdshim as std;
+
 use std::{
     collections::HashMap,
     sync::{
@@ -135,6 +138,10 @@ impl Searcher {
         let max_depth = max_depth.unwrap_or(usize::MAX);
         let mut rng = rng;
 
+        #[cfg(weechess_verif)]
+        let previous_artifact =
+            previous_artifact.or_else(|| Some(verif::fresh_artifact(&mut rng)));
+
         let (hasher, transpositions, mut state_history) = previous_artifact
             .map(|a| (a.hasher, a.transpositions, a.state_history))
             .unwrap_or_else(|| {
@@ -165,6 +172,9 @@ impl Searcher {
         state_history.increment(game_state_hash);
 
         for depth in 0..max_depth {
+            #[cfg(weechess_verif)]
+            weechess_simrt::probe::iteration(depth);
+
             // Don't bother doing multiple threads if we're only searching a few moves
             // as the OS overhead will likely outweigh the benefits of parallelism
             let thread_count = max_thread_count.unwrap_or_else(|| {
@@ -348,6 +358,9 @@ impl Searcher {
         // We're searching a new node here
         *nodes_searched += 1;
 
+        #[cfg(weechess_verif)]
+        weechess_simrt::probe::node(*nodes_searched);
+
         // To avoid spending a lot of time waiting for atomic operations,
         // let's avoid checking the cancellation token in the lower leaf nodes
         if *nodes_searched % 10000 == 0 && token.is_cancelled() {
@@ -503,6 +516,11 @@ impl Searcher {
             let evaluation =
                 evaluator.evaluate(game_state, game_state.turn_to_move(), current_depth);
             return Ok(evaluation);
+        }
+
+        #[cfg(weechess_verif)]
+        if current_depth == 0 {
+            weechess_simrt::probe::root_write(max_depth, best_move.is_some());
         }
 
         if let Some(best_move) = best_move {
@@ -916,6 +934,9 @@ impl CancellationToken {
     }
 
     fn cancel(&self) {
+        #[cfg(weechess_verif)]
+        weechess_simrt::probe::cancel_signalled();
+
         self.cancelled.store(true, Ordering::Relaxed);
     }
 
@@ -923,6 +944,10 @@ impl CancellationToken {
         self.cancelled.load(Ordering::Relaxed)
     }
 }
+
+#[cfg(weechess_verif)]
+#[path = "searcher_verif.rs"]
+pub mod verif;
 
 #[cfg(test)]
 mod tests {
